@@ -141,6 +141,7 @@ type FuncContract struct {
 	AutoFrame  bool // loops carry the automatic invariant "cells that existed at entry are unchanged" for components outside modifies
 	Terminates bool
 	Uses       []string // lemmas to include
+	Hints      []Expr   // terms over entry values mentioned to the solver (E-matching seeds); no logical content
 	PanicsIf   []*Clause
 	Opaque     bool
 	Lets       []*LetSpec
@@ -829,7 +830,7 @@ func (p *parser) textOf(a, b int) string {
 
 var clauseKeywords = map[string]bool{"requires": true, "ensures": true, "modifies": true, "decreases": true, "pure": true,
 	"mode": true, "props": true, "loop": true, "call": true, "trusted": true, "noovf": true, "invariant": true,
-	"allocates": true, "autoframe": true, "uses": true, "panics_if": true, "terminates": true, "opaque": true, "let": true, "mathints": true, "funcparam": true}
+	"allocates": true, "autoframe": true, "hint": true, "uses": true, "panics_if": true, "terminates": true, "opaque": true, "let": true, "mathints": true, "funcparam": true}
 
 func (p *parser) atItemEnd() bool {
 	t := p.peek()
@@ -1048,6 +1049,12 @@ func (p *parser) parseFuncContract() (*FuncContract, error) {
 			for p.peek().k == "id" && !clauseKeywords[p.peek().s] && !itemKeywords[p.peek().s] {
 				fc.Uses = append(fc.Uses, p.adv().s)
 			}
+		case "hint":
+			e, err := p.parseExpr(0)
+			if err != nil {
+				return nil, err
+			}
+			fc.Hints = append(fc.Hints, e)
 		case "funcparam":
 			// contract of calls through a function-typed parameter: funcparam NAME(params) (results) clauses... end
 			sub := &FuncContract{Kind: "funcparam", Loops: map[int]*LoopSpec{}}
